@@ -145,3 +145,20 @@ Proof.
   - inversion H; subst. apply filter_exact.
   - rewrite (prune_paths_unchanged _ _ H). apply filter_exact.
 Qed.
+
+(** lists that are given and empty filter nothing: every operation stays *)
+Lemma keep_all_when_lists_empty c o :
+  f_include_tags c = [] -> f_exclude_tags c = [] -> f_include_ids c = [] -> f_exclude_ids c = [] -> keep c o = true.
+Proof.
+  intros H1 H2 H3 H4. unfold keep. rewrite H1, H2, H3, H4. rewrite has_tag_nil, has_id_nil. reflexivity.
+Qed.
+
+Theorem empty_lists_filter_nothing c d :
+  f_include_tags c = [] -> f_exclude_tags c = [] -> f_include_ids c = [] -> f_exclude_ids c = [] ->
+  op_keys (d_paths (filter_doc c d)) = op_keys (d_paths d).
+Proof.
+  intros H1 H2 H3 H4. rewrite filter_op_keys. unfold op_keys.
+  induction (d_paths d) as [|p ps IH]; [reflexivity|]. cbn [flat_map]. rewrite IH. f_equal.
+  rewrite (filter_ext_eq (keep c) (fun _ => true)); [rewrite filter_true; reflexivity|].
+  intros o. apply keep_all_when_lists_empty; assumption.
+Qed.
